@@ -19,6 +19,7 @@ from reactivex import Observable
 from .core import HarnessError
 from .lab import BudgetExceeded, Lab, LabTestScheduler, Probe, SpinGuard, _Logged
 from .pipes import OPS, Builder
+from .values import Tagged
 
 INF = float("inf")
 _DELIVERY = ("on_next", "on_error", "on_completed")
@@ -211,8 +212,10 @@ def snapshot_open(lab):
 class DProbe(Probe):
     """Probe with dispose snapshots; inner probes are DProbes too."""
 
-    def __init__(self, lab, name="p", **kw):
+    def __init__(self, lab, name="p", raise_terminal=False, no_on_error=False, **kw):
         super().__init__(lab, name, **kw)
+        self.raise_terminal = raise_terminal  # the subscriber's own on_error/on_completed handler raises
+        self.no_on_error = no_on_error  # subscribe(on_next, None, on_completed): the library's default handler re-raises
         self.open_before = None  # snapshot_open() just before the first dispose()
         self.open_after = None  # ... just after it returned
         self.live_after = None  # inner probes live just after it returned
@@ -270,7 +273,7 @@ class DProbe(Probe):
         self.sub_tick = self.lab.now()
         sch = self.lab.sched if scheduler == "lab" else scheduler
         try:
-            d = obs.subscribe(self.on_next, self.on_error, self.on_completed, scheduler=sch)
+            d = obs.subscribe(self.on_next, None if self.no_on_error else self.on_error, self.on_completed, scheduler=sch)
         except SpinGuard:
             self.lab.inconclusive = "spin"
             return None
@@ -287,6 +290,32 @@ class DProbe(Probe):
             self.disposed_seq = self.lab.next_seq()
             self._after()
         return d
+
+    def on_error(self, e):
+        super().on_error(e)
+        if self.raise_terminal:
+            self._raise_terminal()
+
+    def on_completed(self):
+        super().on_completed()
+        if self.raise_terminal:
+            self._raise_terminal()
+
+    def _raise_terminal(self):
+        # if a subscribe() call is on the stack the exception will abort it before it returns its disposable
+        # (nobody ever holds a handle to what it had subscribed so far; an enclosing Observable.subscribe may even
+        # swallow the exception): such runs are flagged and not judged
+        f = sys._getframe(1)
+        while f is not None:
+            if f.f_code.co_name in ("subscribe", "_subscribe_core"):
+                self.lab.through_subscribe = True
+                break
+            f = f.f_back
+        raise Tagged(f"probe:{self.name}:terminal")
+
+    def note_default_error(self, e):
+        """no_on_error mode: the default handler re-raised e out of the emitter; that was this subscriber's terminal."""
+        self._rec("E", self.lab.canon(e))
 
     def dispose(self):
         if self.disposed_tick is None:
